@@ -86,7 +86,7 @@ CLIENTS = ["m%d" % i for i in range(1, 7)]
 LAN = ["a%d" % i for i in range(1, 7)]
 EXT = ["x1", "x2", "x3"]
 LLA = ["l%d" % i for i in range(1, 5)]
-GUA = ["g%d" % i for i in range(1, 5)]
+GUA = ["g%d" % i for i in range(1, 5)] + ["u1", "u2"]      # u<K>: unique local addresses
 NAMES = ["n1", "n2", "n3", "n1u", "n2u"]     # n<K>u = the same name in upper case
 SLOTS = ["dhcp", "mdns", "ssdp", "llmnr", "nbns"]
 
